@@ -499,7 +499,10 @@ static bool read_lead(zckCtx *zck) {
 
     if(memcmp(header, "\0ZHR1", 5) == 0) {
         zck->header_only = true;
-    } else if(memcmp(header, "\0ZCK1", 5) != 0) {
+    } else if(memcmp(header, "\0ZCK1", 5) == 0) {
+        /* The context may have looked at a detached header before */
+        zck->header_only = false;
+    } else {
         free(header);
         set_error(zck, "Invalid lead, perhaps this is not a zck file?");
         return false;
